@@ -134,6 +134,14 @@ def run(chk):
         if r != "same":
             chk.violate({"kind": "property", "case": lib.show_case(c), "impl": r[:1500],
                          "explanation": "ParseFile / ParseOne / ParseFileOne do not return the entries that Parse returns for the same changelog"})
+    # ParseFile / ParseFileOne on a named pipe (a file that can be read once and cannot seek): the entries Parse returns
+    pc = [("clfifo", [t]) for t in texts[::max(1, len(texts) // chk.n(120, 1200))] if t]
+    pi_ = chk.run_impl(pc)
+    chk.record("parse-file-on-a-fifo", pc, pi_, lambda c, r: r == "same")
+    for c, r in zip(pc, pi_):
+        if r != "same":
+            chk.violate({"kind": "property", "case": lib.show_case(c), "impl": r[:800],
+                         "explanation": "ParseFile / ParseFileOne on a named pipe do not return the entries Parse returns for the same bytes"})
     # the caller's own loop: ParseOne again and again on one bufio.Reader until io.EOF gives what Parse gives - on whole
     # changelogs and on every kind of damaged one (an error, never a shortened list)
     lt = texts[::3]
